@@ -1,0 +1,12 @@
+//go:build verif
+
+// Contracts for package signaling_rpc, checked by /verif (bfvc). Comment-only.
+package signaling_rpc
+
+// A session message verifies only if its signed message verifies (C01) under the key embedded in
+// the sender ID it carries; that ID is returned.
+//@ func (*SessionMsg).ExtractAndVerify
+//@   nilable-receiver
+//@   ensures ret2 == nil ==> m != nil && m.SignedMsg != nil && b58ok(m.SignedMsg.FromPeerId) && ret1 == b58dec(m.SignedMsg.FromPeerId)
+//@   ensures ret2 == nil ==> ret0 != nil && rawPub(ret0) == pubKeyFromPB(mhDigest(ret1)) && m.SignedMsg.Signature != nil
+//@   ensures ret2 == nil ==> edVerify(rawPub(ret0), signBody("bifrost/signaling/rpc session msg 2024-06-05T02:45:07.208906Z", m.SignedMsg.Signature.HashType, digest(m.SignedMsg.Signature.HashType, m.SignedMsg.Data)), m.SignedMsg.Signature.SigData)
